@@ -50,6 +50,15 @@ def mpg_decode(data, branch=bool):
     return out, i
 
 
+def mpg_frame(groups):
+    """groups: list of (cpgn, payload) -> multi-PG frame body (TOS 2, trailer format 0), padded to a legal FD length
+    with padding service bytes (TOS 0)"""
+    body = []
+    for cpgn, payload in groups:
+        body += [2 * 32 + (cpgn // 65536) % 4, (cpgn // 256) % 256, cpgn % 256, len(payload)] + list(payload)
+    return body + [0x00] * (next_fd_length(len(body)) - len(body))
+
+
 def dt_frame(session, seg, payload):
     """seg 1-based"""
     chunk = list(payload[(seg - 1) * 60: seg * 60])
